@@ -277,6 +277,7 @@ pub fn cfg_strategy(p: &Profile) -> BoxedStrategy<Cfg> {
             guard_syncs,
             stream_wakes_on_drop,
             payload_bomb: false,
+            unwinding_attempts: false,
         })
         .boxed()
 }
